@@ -3,6 +3,7 @@
 (*   recv     request ids the listener goroutine received (ql.recv hook)     *)
 (*   cblog    callback invocations in order: request id, or "nil"            *)
 (*   replies  <<id, number of responses published on its inbox>>             *)
+(*   kinds    <<id, callback behaviour, kind of the single response>>          *)
 (*   failed   the subscription failed;  published  the query event was sent  *)
 (*   expired  the duration elapsed and the system was left time to settle    *)
 (*   exited   the listener goroutine ended                                   *)
@@ -17,8 +18,20 @@ R == Trace[l]
 Count(x, s) == Cardinality({k \in 1..Len(s) : s[k] = x})
 Replies(i) == LET ix == {k \in 1..Len(R.replies) : R.replies[k][1] = i}
               IN IF ix = {} THEN 0 ELSE R.replies[CHOOSE k \in ix : TRUE][2]
+\* what a query request is answered with, by the behaviour of its callback: the events the callback
+\* itself added (and nothing accumulated by earlier requests), the model/collection it replied with, or an error
+Expected(b) ==
+    CASE b = "" -> "events:0"
+      [] b = "events" -> "events:1"
+      [] b = "events2" -> "events:2"
+      [] b \in {"collection", "reply-panic", "events-collection"} -> "collection"
+      [] b \in {"error", "notfound", "twice", "events-notfound"} -> "error:system.notFound"
+      [] b \in {"panic", "events-panic", "badjson", "badnoq"} -> "error:system.internalError"
+      [] b = "panic-err" -> "error:system.invalidQuery"
+      [] OTHER -> "unknown-behaviour"
 Clause(c) ==
     CASE c = "one-reply"  -> \A k \in 1..Len(R.recv) : Replies(R.recv[k]) = 1
+      [] c = "content"    -> \A k \in 1..Len(R.kinds) : R.kinds[k][3] = Expected(R.kinds[k][2])
       [] c = "callback-per-request" -> \A k \in 1..Len(R.recv) : R.badpayload[k] \/ Count(R.recv[k], R.cblog) = 1
       [] c = "nil-once"   -> (R.expired \/ R.failed) => Count("nil", R.cblog) = 1
       [] c = "nil-at-most-once" -> Count("nil", R.cblog) <= 1
@@ -27,6 +40,6 @@ Clause(c) ==
       [] c = "released"   -> R.expired => R.exited
       [] c = "serialized" -> ~R.overlap     \* no query callback ran while another callback of the resource's group was inside
       [] OTHER -> FALSE
-Clauses == {"serialized", "one-reply", "callback-per-request", "nil-once", "nil-at-most-once", "nil-last", "failed-sub", "released"}
+Clauses == {"serialized", "one-reply", "content", "callback-per-request", "nil-once", "nil-at-most-once", "nil-last", "failed-sub", "released"}
 RecordOK == IF R.judge = "all" THEN \A c \in Clauses : Clause(c) ELSE Clause(R.judge)
 =============================================================================
